@@ -76,11 +76,14 @@ Notation "'do' '(' a ',' b ')' <- r ; k" := (bind r (fun ab => let '(a, b) := ab
 (* a SQL dialect, as far as the generator distinguishes dialects *)
 Record dialect := mk_dialect {
   d_allow_extend_merges : bool;        (* SQLModel.allow_extend_merges *)
-  d_rewrite_right_full : bool          (* SQLiteModel.natural_join_to_near_sql: RIGHT and FULL joins are rewritten *)
+  d_rewrite_right : bool;              (* SQLiteModel.natural_join_to_near_sql: a RIGHT join is written as a LEFT join *)
+  d_rewrite_full : bool                (* ... and a FULL join as key table + two LEFT joins when sqlite3.sqlite_version_info < (3, 39, 0) *)
 }.
-Definition d_sqlite := mk_dialect true true.
-Definition d_sqlite_nomerge := mk_dialect false true.
-Definition d_generic := mk_dialect true false.          (* DBModel / PostgreSQLModel *)
+Definition d_sqlite := mk_dialect true true false.              (* SQLiteModel linked with SQLite 3.39+ (here: 3.40.1) *)
+Definition d_sqlite_nomerge := mk_dialect false true false.
+Definition d_sqlite_pre339 := mk_dialect true true true.        (* SQLiteModel linked with an older engine: FULL join emulated *)
+Definition d_sqlite_pre339_nomerge := mk_dialect false true true.
+Definition d_generic := mk_dialect true false false.            (* DBModel / PostgreSQLModel *)
 
 (* NearSQL.__init__: self.terms = terms.copy() only for a non-empty dict, else None *)
 Definition norm {A} (l : list A) : option (list A) := match l with [] => None | _ => Some l end.
@@ -331,17 +334,19 @@ Fixpoint to_near_f (fuel : nat) (d : dialect) (p : op) (usg : option (list strin
         let tms := fold_left (fun acc c => dict_set acc c TmPass) unchanged tms in
         Ok (TUnary (mkvn "rename" n1) (norm tms) subsql (mk_tci (Some subusing) false None) SfxNone false None, S n1)
     | OJoin a b on_a on_b jt =>                                                (* [SQLiteModel.]natural_join_to_near_sql *)
-        if d_rewrite_right_full d then
-          match jt with
-          | JRight =>                                                          (* _emit_right_join_as_left_join *)
-              gen_join (rec b) (rec a) p b a on_b on_a JLeft false usg n
-          | JFull =>                                                           (* _emit_full_join_as_complex *)
+        match jt with
+        | JRight =>
+            if d_rewrite_right d
+            then gen_join (rec b) (rec a) p b a on_b on_a JLeft false usg n    (* _emit_right_join_as_left_join *)
+            else gen_join (rec a) (rec b) p a b on_a on_b jt true usg n
+        | JFull =>
+            if d_rewrite_full d then                                           (* _emit_full_join_as_complex *)
               if is_nil on_a then Raise                                        (* assert len(join_node.on_a) > 0 *)
               else if negb (eqb on_a on_b) then Raise                          (* assert join_node.on_a == join_node.on_b *)
               else rec (full_join_rewrite a b on_a) (Some using0) n
-          | _ => gen_join (rec a) (rec b) p a b on_a on_b jt true usg n
-          end
-        else gen_join (rec a) (rec b) p a b on_a on_b jt true usg n
+            else gen_join (rec a) (rec b) p a b on_a on_b jt true usg n
+        | _ => gen_join (rec a) (rec b) p a b on_a on_b jt true usg n
+        end
     | OConcat a b idc an bn =>                                                 (* concat_rows_to_near_sql *)
         let using1 := if is_nil using0 then firstn 1 (column_names p) else using0 in      (* 2bf9832 *)
         if negb (subset using1 (column_names p)) then Raise
